@@ -24,8 +24,8 @@ def run(tier, seed):
         wsprops.run_c11(tier, seed, res)
     except ImportError:
         pass
-    cov['rule'] = ('(a) all sequences of %d whole-line tokens up to the stated length - and the same over a second alphabet of exotic spellings (quoted names with escapes, CRLF, trailing blanks, odd headers; size in tokens_second_alphabet) -, the last token also without its final newline; (b) full 12^4 grid of '
-                   'hunk-header numbers {0,1,2,2^31-1,2^31,2^32-1,2^32,2^63-1,2^63,2^64-1,2^64,10^30} x 3 bodies; (c) 5 patch skeletons with every combination of up to 2 '
+    cov['rule'] = ('(a) all sequences of %d whole-line tokens up to the stated length - and the same over a second alphabet of exotic spellings (quoted names with escapes, CRLF, trailing blanks, odd headers; size in tokens_second_alphabet) -, the last token also without its final newline; (b) full 14^4 grid of '
+                   'hunk-header numbers {0,1,2,2^31-1,2^31,2^32-1,2^32,2*10^18,2^61-1,2^63-1,2^63,2^64-1,2^64,10^30} x 3 bodies; (c) 5 patch skeletons with every combination of up to 2 '
                    'token edits. Each input is parsed with strip 0/1/5 and, if it parses, every file patch is applied and rolled back on an empty, an absent and a '
                    '3-line file at fuzz 0 and 2 in both directions. Oracle: no panic, abort, hang (2 s watchdog) and no allocation above 64*|input|+1MiB. '
                    'non-trivial = inputs that parse to at least one file patch') % doc['tokens']
